@@ -1,13 +1,15 @@
 (* C18 property theorems: statements only; every proof is [exact lemma]. *)
-From Gv Require Import lib.Bytes C18.Model C18.Spec C18.ProofsInv C18.ProofsKey C18.ProofsDrain C18.ProofsIso
-  C18.ProofsRouting C18.ProofsIsoPartial C18.Proofs gen.Anchors_C18.
+From Gv Require Import lib.Bytes C18.Model C18.ModelV0 C18.Spec C18.ProofsInv C18.ProofsKey C18.ProofsDrain C18.ProofsIso
+  C18.ProofsRouting C18.ProofsV0 C18.Proofs gen.Anchors_C18.
 From Coq Require Import List NArith Arith Bool.
 Import ListNotations.
 
 Theorem c18_anchors :
   anchor_connkey_fields = model_key_fields
-  /\ anchor_dial_uses_caller_ctx = true /\ anchor_waiter_returns_dial_err = true
-  /\ anchor_removeconn_by_key = true /\ anchor_close_outside_lock = true.
+  /\ anchor_dial_uses_caller_ctx = true /\ anchor_waiter_never_inherits_abort = true
+  /\ anchor_book_before_publish = true /\ anchor_removeconn_by_key = true
+  /\ anchor_subscribe_restarts_on_closed = true /\ anchor_close_decided_under_lock = true
+  /\ anchor_subscribe_write_conn_ctx = true.
 Proof. exact anchors_ok. Qed.
 Print Assumptions c18_anchors.
 
@@ -35,8 +37,7 @@ Print Assumptions c18_terminal_local.
 
 (* double removal (the subscriber's own cancel and dispatch both call removeSub for one id): removing
    an id that is no longer in the table changes nothing and starts the close flow only if the table
-   is empty -- never under a sibling.  Together with c18_conns_drain / c18_cancel_isolated_partial
-   (the run Proofs.ex_double_remove satisfies [safe_run]).  Non-vacuity: Proofs.ex_double_remove. *)
+   is empty -- never under a sibling.  Non-vacuity: Proofs.ex_double_remove. *)
 Theorem c18_double_remove_noop : forall s c x w s' e,
   cns s c = Some x -> c_rl x = RLRemove w -> (forall i, ~ In (w, i) (c_subs x)) ->
   step s (ARLRemove c) = Some (s', e) ->
@@ -63,32 +64,52 @@ Theorem c18_conns_drain : forall idl s log, reach idl s log -> quiescent s ->
 Proof. exact conns_drain_proof. Qed.
 Print Assumptions c18_conns_drain.
 
-(* cancel_isolated with the three refuting windows excluded explicitly ([safe]): no dial aborted by the
-   dialler's ctx, no frame write killed by its ctx, closeConn-after-empty only while the table is
-   still empty and nobody is between obtaining the connection and having subscribed on it.  Then
-   every failure a subscriber observes is its own ctx or an upstream fault.
-   Non-vacuity: ProofsIsoPartial.partial_nonvacuous. *)
-Theorem c18_cancel_isolated_partial : forall idl tr s log,
-  run (init idl) tr = Some (s, log) -> safe_run (init idl) tr -> isolated_log log.
-Proof. exact cancel_isolated_partial_proof. Qed.
-Print Assumptions c18_cancel_isolated_partial.
+(* cancel_isolated, at full strength, of the repaired code: on EVERY accepted action list -- any
+   interleaving of subscribes, cancels (also during a dial, during init, before the subscribe frame),
+   upstream faults, idle timers -- every failure a subscriber observes (error return of Subscribe,
+   connection-error callback) is its own context error or an upstream fault (rejected dial, init
+   failure, drop, ping timeout): never another subscriber's cancel, another subscriber leaving, or
+   another subscriber's ctx ending a dial or a frame write (Spec.ev_isolated; the blame tags are
+   ghost data of the model).  Non-vacuity: Proofs.ex_cancel_isolated; the three schedules that
+   refuted the statement before the repairs: ProofsIso.repaired_a / repaired_b / repaired_d. *)
+Theorem c18_cancel_isolated : forall idl tr s log, run (init idl) tr = Some (s, log) -> isolated_log log.
+Proof. exact cancel_isolated_proof. Qed.
+Print Assumptions c18_cancel_isolated.
 
-(* cancel_isolated is FALSE of the faithful model: three independent witnesses *)
-Theorem c18_cancel_isolated_refuted_dialler_ctx :
-  exists log log', obs false tr_a = Some log /\ In (ORet 1 (Some (ECtx 0 true))) log /\ ~ In (OCancel 1) log
+(* HISTORICAL (ModelV0.v, the code as found): cancel_isolated was false, by three independent
+   witnesses -- one per defect repaired since (dial under the first subscriber's ctx handed to the
+   waiters; closeConn after a stale emptiness test; subscribe frame written under the subscriber's
+   ctx) *)
+Theorem c18_cancel_isolated_refuted_dialler_ctx_v0 :
+  exists log log', V0.obs false tr_a = Some log /\ In (ORet 1 (Some (ECtx 0 true))) log /\ ~ In (OCancel 1) log
                    /\ ~ isolated_log log
-                   /\ obs false tr_a_minus = Some log' /\ In (ORet 1 None) log' /\ isolated_log log'.
+                   /\ V0.obs false tr_a_minus = Some log' /\ In (ORet 1 None) log' /\ isolated_log log'.
 Proof. exact refuted_a. Qed.
-Print Assumptions c18_cancel_isolated_refuted_dialler_ctx.
+Print Assumptions c18_cancel_isolated_refuted_dialler_ctx_v0.
 
-Theorem c18_cancel_isolated_refuted_idle_close :
-  (exists log, obs true tr_b = Some log /\ In (OConnErr 1 CIdle) log /\ ~ In (OCancel 1) log /\ ~ isolated_log log)
-  /\ (exists log, obs false tr_b0 = Some log /\ In (ORet 1 (Some (EClosed CIdle))) log /\ ~ In (OCancel 1) log
+Theorem c18_cancel_isolated_refuted_idle_close_v0 :
+  (exists log, V0.obs true tr_b = Some log /\ In (OConnErr 1 CIdle) log /\ ~ In (OCancel 1) log /\ ~ isolated_log log)
+  /\ (exists log, V0.obs false tr_b0 = Some log /\ In (ORet 1 (Some (EClosed CIdle))) log /\ ~ In (OCancel 1) log
                   /\ ~ isolated_log log).
 Proof. exact refuted_b. Qed.
-Print Assumptions c18_cancel_isolated_refuted_idle_close.
+Print Assumptions c18_cancel_isolated_refuted_idle_close_v0.
 
-Theorem c18_cancel_isolated_refuted_write_ctx :
-  exists log, obs false tr_d = Some log /\ In (OConnErr 0 (CWriteCtx 1)) log /\ ~ In (OCancel 0) log /\ ~ isolated_log log.
+Theorem c18_cancel_isolated_refuted_write_ctx_v0 :
+  exists log, V0.obs false tr_d = Some log /\ In (OConnErr 0 (CWriteCtx 1)) log /\ ~ In (OCancel 0) log /\ ~ isolated_log log.
 Proof. exact refuted_d. Qed.
-Print Assumptions c18_cancel_isolated_refuted_write_ctx.
+Print Assumptions c18_cancel_isolated_refuted_write_ctx_v0.
+
+(* the same three schedules on the repaired code: the waiter dials again and subscribes; the idle
+   close sees the new subscription (or the subscriber that finds the connection closed starts
+   over); the subscriber with the cancelled ctx gets its own error and the socket stays up *)
+Theorem c18_repaired_witnesses :
+  (exists log, ProofsIso.obs false ProofsIso.tr_a = Some log /\ In (ORet 0 (Some (ECtx 0 true))) log
+               /\ In (OSrvDial 1 ProofsIso.K1) log /\ In (ORet 1 None) log /\ isolated_log_b log = true)
+  /\ (exists log, ProofsIso.obs true ProofsIso.tr_b = Some log /\ In (ODeliver 1 (KData 5)) log /\ ~ In (OSrvClosed 0) log
+                  /\ isolated_log_b log = true)
+  /\ (exists log, ProofsIso.obs false ProofsIso.tr_b0 = Some log /\ In (OSrvClosed 0) log /\ In (OSrvSub 1 2 1) log
+                  /\ In (ORet 1 None) log /\ isolated_log_b log = true)
+  /\ (exists log, ProofsIso.obs false ProofsIso.tr_d = Some log /\ In (ORet 1 (Some (ECtx 1 false))) log
+                  /\ In (ODeliver 0 (KData 7)) log /\ ~ In (OSrvClosed 0) log /\ isolated_log_b log = true).
+Proof. exact repaired_witnesses. Qed.
+Print Assumptions c18_repaired_witnesses.
